@@ -115,7 +115,8 @@ def execute_run(cfg, rid):
     fixed = [num(v) for v in cfg['fixed']]
     lb = [num(v) for v in cfg['lb']]
     ub = [num(v) for v in cfg['ub']]
-    fixed_arg = None if cfg['fixed_is_none'] else fixed
+    wrap = CONTAINERS[cfg.get('container', 'list')]
+    fixed_arg = None if cfg['fixed_is_none'] else wrap(fixed, True)
     kw = dict(multinom=cfg['multinom'], fixed_params=fixed_arg)
     full = cfg['full_output']
     scale = num(cfg['ll_scale'])
@@ -128,8 +129,9 @@ def execute_run(cfg, rid):
         model.mode = 'probe'
         model(start, None)
         cfg['f0'] = rat(model.last)
-        kw['lower_bound'] = None if cfg['lb_is_none'] else lb
-        kw['upper_bound'] = None if cfg['ub_is_none'] else ub
+        kw['lower_bound'] = None if cfg['lb_is_none'] else wrap(lb)
+        kw['upper_bound'] = None if cfg['ub_is_none'] else wrap(ub)
+        p0 = wrap(p0)
     else:
         cfg['f0'] = NONE
     model.mode = 'eval'
@@ -158,8 +160,28 @@ def execute_run(cfg, rid):
     return {'id': rid, 'op': 'run', 'site': site_of(kind, log, on_bound), 'in': cfg, 'out': {'events': model.events}}
 
 
+def _ints(v, mask=False):
+    """Python ints where the value is integral (0 stays the int 0), floats elsewhere"""
+    return [x if x is None else (int(x) if float(x).is_integer() else x) for x in v]
+
+
+def _array(v, mask=False):
+    # a mask or a bound list holding None cannot be a float array: such lists stay lists
+    return list(v) if any(x is None for x in v) else np.array(v, dtype=float)
+
+
+#: how start point, bounds and mask are handed to dadi (record field 'container')
+CONTAINERS = {'list': lambda v, mask=False: list(v), 'tuple': lambda v, mask=False: tuple(v),
+              'array': _array, 'ints': _ints}
+
+
 BUDGET = {'opt': 40, 'optimize': 3, 'optimize_log': 3, 'optimize_lbfgsb': 25, 'optimize_log_lbfgsb': 25,
           'optimize_log_fmin': 12, 'optimize_log_powell': 1, 'optimize_cons': 4, 'optimize_grid': 0}
+
+
+#: the boundary block uses smaller budgets (its point is the first evaluations and the returned point)
+EDGE_BUDGET = {'opt': 20, 'optimize': 2, 'optimize_log': 2, 'optimize_lbfgsb': 12, 'optimize_log_lbfgsb': 12,
+               'optimize_log_fmin': 8, 'optimize_log_powell': 1, 'optimize_cons': 3, 'optimize_grid': 0}
 
 
 def make_cfg(rng, kind, log, npar, mask, multinom):
@@ -245,6 +267,103 @@ def make_cfg(rng, kind, log, npar, mask, multinom):
     return cfg
 
 
+def edge_cfgs(kind, log, seed):
+    """The boundary values of the stated domain, drawn deterministically for every optimiser: start point
+    exactly on a bound, one-sided / absent bounds in both spellings (None argument, list of None), bounds
+    exactly 0, equal bounds, start value 0, fixed values 0.0 and int 0 in first / middle / last position,
+    tuples / arrays / Python ints as containers, full_output on and off, ll_scale."""
+    pos = log
+    scaled = kind in ('optimize', 'optimize_log', 'optimize_lbfgsb', 'optimize_log_lbfgsb', 'optimize_cons')
+    cases = []
+
+    def case(name, p0, lb, ub, fixed=None, truth=None, multinom=None, full=None, **extra):
+        n = len(p0)
+        k = len(cases)
+        fx = [None] * n if fixed is None else fixed
+        t = truth if truth is not None else [1.4, 0.8, 2.2, 1.1][:n]
+        c = {'kind': kind, 'log': log, 'npar': n, 'mseed': (seed + 31 * k) % 10 ** 6, 'truth': rats(t),
+             'multinom': (k % 2 == 0) if multinom is None else multinom, 'fixed': [enc(v) for v in fx],
+             'fixed_is_none': fixed is None and k % 2 == 1,
+             'full_output': kind != 'opt' and ((k % 3 != 0) if full is None else full),
+             'll_scale': '1', 'budget': EDGE_BUDGET[kind], 'edge': name,
+             'p0': rats(p0), 'lb': [enc(v) for v in (lb if lb is not None else [None] * n)],
+             'ub': [enc(v) for v in (ub if ub is not None else [None] * n)],
+             'lb_is_none': lb is None, 'ub_is_none': ub is None}
+        c.update(extra)
+        cases.append(c)
+    lo2, hi2 = ([0.25, 0.5], [3.0, 4.0]) if pos else ([-1.0, 0.25], [2.0, 3.0])
+    mid = [1.0, 1.5]
+    for mn in (True, False):
+        case('start_on_lower', [lo2[0], mid[1]], lo2, hi2, multinom=mn)
+        case('start_on_upper', [mid[0], hi2[1]], lo2, hi2, multinom=mn)
+        case('start_on_both', [lo2[0], hi2[1]], lo2, hi2, multinom=mn, truth=[lo2[0] - 0.1, hi2[1] + 1.0])
+    case('lower_only_list', mid, lo2, [None, None])
+    case('upper_only_list', mid, [None, None], hi2)
+    case('lower_only_arg', mid, lo2, None)
+    case('upper_only_arg', mid, None, hi2)
+    case('no_bounds_args', mid, None, None)
+    case('no_bounds_lists', mid, [None, None], [None, None])
+    case('mixed_one_sided', mid, [lo2[0], None], [None, hi2[1]])
+    case('lower_zero', mid, [0.0, 0.0], [3.0, None], truth=[0.3, 0.2])
+    case('lower_zero_optimum_beyond', mid, [0.0, 0.0], hi2, truth=[-0.5, 1.0] if not pos else [0.02, 1.0])
+    case('equal_bounds', [1.0, 1.5], [1.0, lo2[1]], [1.0, hi2[1]])
+    case('equal_bounds_all', [1.0, 1.5], [1.0, 1.5], [1.0, 1.5])
+    if not pos:
+        case('start_on_zero_lower', [0.0, 1.5], [0.0, 0.0], hi2)
+        case('upper_zero', [-1.0, -0.5], [-3.0, None], [0.0, 0.0], truth=[-0.4, 0.6])
+        case('start_on_zero_upper', [0.0, -0.5], [-3.0, -3.0], [0.0, 0.0], truth=[0.5, -1.0])
+        case('start_zero_inside', [0.0, 0.5], [-1.0, -1.0], [1.0, 1.0], truth=[0.4, 0.3])
+        case('start_all_zero', [0.0, 0.0], None, None, truth=[0.4, 0.3])
+        case('negative_box', [-1.5, -2.0], [-3.0, -4.0], [-0.5, -1.0], truth=[-1.0, -0.2])
+    # fixed values that are falsy in Python: 0.0 and the int 0, in first / middle / last position
+    for container in ('list', 'ints'):
+        z = 0.0
+        case('fixed_zero_middle', [1.0, 5.0, 1.5], [lo2[0], 0.0, lo2[1]], [hi2[0], 2.0, hi2[1]], fixed=[None, z, None], container=container)
+        case('fixed_zero_first', [5.0, 1.5], [0.0, lo2[1]], [2.0, hi2[1]], fixed=[z, None], container=container)
+        case('fixed_zero_last', [1.0, 5.0], [lo2[0], None], [hi2[0], None], fixed=[None, z], container=container)
+        case('fixed_zero_twice', [1.0, 5.0, 7.0, 1.5], None, None, fixed=[None, z, z, None], container=container)
+        case('fixed_zero_and_one', [1.0, 5.0, 7.0], [0.0, 0.0, 0.0], None, fixed=[z, None, 1.0], container=container)
+    for container in ('tuple', 'array', 'ints'):
+        case('container_' + container, [1.0, 2.0], [0.0, 1.0], [3.0, 4.0], container=container, full=True)
+        case('container_' + container + '_fixed', [1.0, 2.0, 1.0], [0.0, 1.0, 0.0], [3.0, 4.0, 3.0], fixed=[None, 2.0, None],
+             container=container, full=False)
+    for full in (True, False):
+        for mn in (True, False):
+            case('plain', mid, lo2, hi2, multinom=mn, full=full)
+    if scaled:
+        case('ll_scale', mid, lo2, hi2, full=True, ll_scale=rat(2.0))
+        case('ll_scale_fixed', [1.0, 1.5, 1.0], None, None, fixed=[None, None, 0.5], full=True, ll_scale=rat(4.0))
+    return cases
+
+
+def edge_grid_cfgs(seed):
+    """optimize_grid: ranges starting at / ending at / containing 0, both range spellings, fixed 0.0 / int 0,
+    one to three free parameters, full_output on and off."""
+    cases = []
+
+    def case(name, grid, fixed, multinom, full, container='list'):
+        k = len(cases)
+        it = iter(grid)
+        g = [None if f is not None else next(it) for f in fixed]
+        cases.append({'kind': 'optimize_grid', 'log': False, 'npar': len(fixed), 'mseed': (seed + 17 * k) % 10 ** 6,
+                      'truth': rats([(0.4, 0.9, -0.3, 0.6)[i] for i in range(len(fixed))]), 'multinom': multinom,
+                      'fixed': [enc(v) for v in fixed], 'fixed_is_none': all(f is None for f in fixed) and k % 2 == 0,
+                      'full_output': full, 'll_scale': '1', 'budget': 0, 'edge': name, 'container': container,
+                      'grid': [[rat(a), rat(b), c, d] if d else [rat(a), rat(b), rat(c), d] for a, b, c, d in grid],
+                      'p0': [NONE] * len(fixed), 'lb': [enc(None if x is None else x[0]) for x in g],
+                      'ub': [enc(None if x is None else x[1]) for x in g], 'lb_is_none': False, 'ub_is_none': False})
+    for full in (True, False):
+        for mn in (True, False):
+            case('one_free', [(0.0, 2.0, 3, True)], [None], mn, full)
+            case('two_free_from_zero', [(0.0, 1.0, 0.5, False), (-1.0, 0.0, 3, True)], [None, None], mn, full)
+            case('fixed_zero_float', [(0.25, 1.25, 0.5, False)], [None, 0.0], mn, full)
+            case('fixed_zero_int', [(-0.5, 0.5, 3, True)], [0, None], mn, full, 'ints')
+            case('fixed_zero_middle', [(0.0, 1.0, 2, True), (0.5, 1.5, 0.5, False)], [None, 0.0, None], mn, full)
+            case('three_free', [(0.0, 1.0, 2, True), (-1.0, 1.0, 1.0, False), (0.5, 1.0, 2, True)], [None, None, None], mn, full)
+            case('single_point_range', [(0.5, 0.5, 1, True), (0.0, 1.0, 3, True)], [None, None], mn, full)
+    return cases
+
+
 def run_records(ctx):
     recs = []
     reps = 1 if ctx.quick else 6
@@ -261,6 +380,11 @@ def run_records(ctx):
                         cfg = make_cfg(rng, kind, log, npar, mask, multinom)
                         recs.append(execute_run(cfg, 'run-%d' % n))
                         n += 1
+    # the boundary values of the domain, deterministically (quick and thorough)
+    for kind, log in variants:
+        cfgs = edge_grid_cfgs(ctx.seed) if kind == 'optimize_grid' else edge_cfgs(kind, log, ctx.seed)
+        for k, cfg in enumerate(cfgs):
+            recs.append(execute_run(cfg, 'edge-%s%s-%d-%s' % (kind, '-log' if log and kind == 'opt' else '', k, cfg['edge'])))
     return recs
 
 
@@ -282,8 +406,9 @@ def observe(fn, key):
 
 def execute_static(op, inp, rid):
     from dadi import Inference, Misc
+    wrap = CONTAINERS[inp.get('container', 'list')]
     fixed = [num(v) for v in inp['fixed']] if 'fixed' in inp else None
-    fx_arg = None if inp.get('fixed_is_none') else fixed
+    fx_arg = None if inp.get('fixed_is_none') else (None if fixed is None else wrap(fixed, True))
     if op == 'up':
         x = [num(v) for v in inp['x']]
         arg = np.float64(x[0]) if inp.get('scalar') else (np.array(x) if inp.get('array') else x)
@@ -302,9 +427,10 @@ def execute_static(op, inp, rid):
         out = observe(lambda: Inference._project_params_up(Inference._project_params_down(np.array(y), fx_arg), fx_arg), 'y')
         site = 'Inference._project_params_down'
     elif op == 'perturb':
-        params = np.array([num(v) for v in inp['params']])
-        lb = None if inp['lb_is_none'] else [num(v) for v in inp['lb']]
-        ub = None if inp['ub_is_none'] else [num(v) for v in inp['ub']]
+        params = [num(v) for v in inp['params']]
+        params = np.array(_ints(params)) if inp.get('container') == 'ints' else (wrap(params) if 'container' in inp else np.array(params))
+        lb = None if inp['lb_is_none'] else wrap([num(v) for v in inp['lb']])
+        ub = None if inp['ub_is_none'] else wrap([num(v) for v in inp['ub']])
         np.random.seed(inp['seed'])
         out = observe(lambda: Misc.perturb_params(params, fold=inp['fold'], lower_bound=lb, upper_bound=ub), 'p')
         site = 'Misc.perturb_params'
@@ -320,7 +446,26 @@ def static_records(ctx):
 
     def add(op, inp):
         recs.append(execute_static(op, inp, '%s-%d' % (op, next(nid))))
-    for k in range(150 if ctx.quick else 1500):
+    # deterministic part: every mask pattern over 0-3 parameters with the fixed value 0.0, the int 0 and a
+    # negative number; free values include 0; list and array arguments; the scalar argument for one free entry
+    for n in range(0, 4):
+        for pattern in itertools.product([False, True], repeat=n):
+            for v, container in ((0.0, 'list'), (0, 'ints'), (-2.5, 'array')):
+                mask = [v if f else None for f in pattern]
+                nfree = n - sum(pattern)
+                x = [0.0, 1.25, -3.0][:nfree]
+                y = [([0.0, 1.25, -3.0][i] if m is None else m) for i, m in enumerate(mask)]
+                base = {'fixed': [enc(m) for m in mask], 'fixed_is_none': False, 'array': container == 'array', 'container': container}
+                add('up', dict(base, x=rats(x), scalar=False))
+                if nfree == 1:
+                    add('up', dict(base, x=rats(x), scalar=True))
+                add('down', dict(base, y=rats(y)))
+                add('up_down', dict(base, x=rats(x)))
+                add('down_up', dict(base, y=rats(y)))
+        free = {'fixed': [NONE] * n, 'fixed_is_none': True, 'array': n % 2 == 0}
+        add('up', dict(free, x=rats([0.0, 1.25, -3.0][:n]), scalar=False))
+        add('down', dict(free, y=rats([0.0, 1.25, -3.0][:n])))
+    for k in range(80 if ctx.quick else 1500):
         n = rng.randint(1, 6)
         mask = rand_mask(rng, n, rng.choice([0.0, 0.3, 0.6, 1.0]))
         nfree = sum(1 for v in mask if v is None)
@@ -332,7 +477,27 @@ def static_records(ctx):
         add('down', dict(base, y=rats(y)))
         add('up_down', dict(base, x=rats(x)))
         add('down_up', dict(base, y=rats(y)))
-    for k in range(400 if ctx.quick else 4000):
+    # deterministic part: every pairing of {no argument, None entry, negative, 0, positive} lower and upper
+    # bounds, equal bounds, parameters -1 / 0 / 1, folds 0 / 1 / 3, tuples / arrays / Python ints
+    pseed = itertools.count(ctx.seed % 1000)
+    ABSENT = 'absent'
+    for lo in (ABSENT, None, -2.0, 0.0, 0.5):
+        for hi in (ABSENT, None, -0.5, 0.0, 3.0):
+            if isinstance(lo, float) and isinstance(hi, float) and lo > hi:
+                continue
+            for fold in (0, 1, 3):
+                add('perturb', {'params': rats([-1.0, 0.0, 1.0]), 'fold': fold, 'seed': next(pseed),
+                                'lb': [enc(None if lo == ABSENT else lo)] * 3, 'ub': [enc(None if hi == ABSENT else hi)] * 3,
+                                'lb_is_none': lo == ABSENT, 'ub_is_none': hi == ABSENT})
+    for b in (-1.0, 0.0, 2.0):
+        for fold in (0, 1, 3):
+            add('perturb', {'params': rats([-1.0, 0.0, 1.0, b]), 'fold': fold, 'seed': next(pseed), 'lb': [enc(b)] * 4, 'ub': [enc(b)] * 4,
+                            'lb_is_none': False, 'ub_is_none': False})
+    for container in ('tuple', 'array', 'ints', 'list'):
+        for lo, hi in (([-3.0, 0.0, 1.0], [-1.0, 2.0, 4.0]), ([0.0, 0.0, 0.0], [1.0, 1.0, 1.0])):
+            add('perturb', {'params': rats([-2.0, 1.0, 3.0]), 'fold': 2, 'seed': next(pseed), 'lb': [enc(v) for v in lo], 'ub': [enc(v) for v in hi],
+                            'lb_is_none': False, 'ub_is_none': False, 'container': container})
+    for k in range(250 if ctx.quick else 4000):
         n = rng.randint(1, 5)
         params, lb, ub = [], [], []
         for i in range(n):
@@ -468,19 +633,54 @@ def run(ctx):
         ctx.no_mc = True
         recs = [execute_run(old['in'], old['id']) if old['op'] == 'run' else execute_static(old['op'], old['in'], old['id'])]
     else:
-        recs = run_records(ctx) + static_records(ctx)
+        recs = None
     extra = {'tolerances': {'Tau (log-likelihood, relative)': '1e-9', 'TauX (parameter values after a coordinate map, relative)': '1e-12'}}
-    if not getattr(ctx, 'no_mc', False):
-        extra['nonvacuity'] = nonvacuity()
     mcs = [('OptimizerMC', 'OptimizerMC_quick.cfg')] if ctx.quick else \
           [('OptimizerMC', 'OptimizerMC_thorough.cfg'), ('OptimizerMC', 'OptimizerMC_thorough2.cfg')]
+    pending = None
+    if not getattr(ctx, 'no_mc', False):
+        # the exhaustive runs do not depend on the records: TLC works while Python drives the optimisers
+        from concurrent.futures import ThreadPoolExecutor
+        pool = ThreadPoolExecutor(max_workers=2)
+        pending = (pool.submit(nonvacuity), pool.submit(lambda: [common.run_mc(spec, cfg) for spec, cfg in mcs]))
+    if recs is None:
+        recs = run_records(ctx) + static_records(ctx)
+    res = _pipeline(ctx, recs, extra)
+    if pending:
+        cov = res['coverage']
+        cov['nonvacuity'] = pending[0].result()
+        for (spec, cfg), (r, v) in zip(mcs, pending[1].result()):
+            cov['states'] += r.states
+            cov['transitions'] += r.transitions
+            cov['model_checking_runs'].append({'spec': spec, 'cfg': cfg, 'distinct_states': r.states, 'states_generated': r.transitions,
+                                               'wall_s': round(r.wall, 1), 'ok': r.ok})
+            res['violations'] += v
+    return res
+
+
+def _pipeline(ctx, recs, extra):
+    mc_off = getattr(ctx, 'no_mc', False)
+    ctx.no_mc = True            # the exhaustive runs are started by run() itself
+    try:
+        return _pipeline1(ctx, recs, extra)
+    finally:
+        ctx.no_mc = mc_off
+
+
+def _pipeline1(ctx, recs, extra):
     return common.pipeline(
-        ctx, mcs, 'Trace_Optimizer', recs, nontrivial_of=nontrivial, mutator=mutate, what_of=what_of, extra_cov=extra,
+        ctx, [], 'Trace_Optimizer', recs, nontrivial_of=nontrivial, mutator=mutate, what_of=what_of, extra_cov=extra,
         rule='run: one call of an optimiser (9 public functions, opt in both parameterisations) x every mask of fixed parameters '
              'with a free one x multinom on/off x 1-4 parameters, random bounds (absent / zero / negative / positive), start point inside '
              '(also on or next to a bound), optimum inside or beyond the bounds; non-trivial if the model was evaluated at >= 3 distinct '
              'points and the call returned; distinct by (function, #parameters, mask, multinom, full_output, pattern of present bounds). '
-             'up/down: non-trivial if the mask has fixed and free entries. perturb: non-trivial if a bound is present.',
+             'up/down: non-trivial if the mask has fixed and free entries. perturb: non-trivial if a bound is present. '
+             'Deterministic boundary block (both tiers), for every optimiser: start exactly on the lower / upper / both bounds, one-sided and absent '
+             'bounds as None argument and as list of None, bounds exactly 0, start value 0, equal bounds, negative box, fixed value 0.0 and int 0 in '
+             'first / middle / last / two positions, tuples / arrays / Python ints as containers, full_output on and off x multinom on and off, ll_scale; '
+             'optimize_grid: ranges from / to / across 0, both range spellings, single-point range, 1-3 free parameters, fixed 0.0 / int 0; '
+             'up/down: every mask pattern over 0-3 entries with fixed 0.0 / int 0 / negative, free value 0, scalar argument; '
+             'perturb: every pairing of {no argument, None entry, negative, 0, positive} bounds, equal bounds, parameters -1/0/1, folds 0/1/3, containers.',
         assumptions=['at least one parameter is free (with every parameter fixed there is nothing to optimise; nlopt refuses dimension 0)',
                      'start points and fixed values lie inside the bounds (the quantifier of C12)',
                      'an evaluation is a call of the user\'s model function; its likelihood is computed by the logging model function with dadi.Inference.ll / ll_multinom',
